@@ -46,7 +46,8 @@ def finding_key(e, reason, twin):
 def judge(ck, traces, stats):
     """validate every trace; returns list of (size, key, what, replay_obj)"""
     def val(tp):
-        return ck.validate_events(*TRACE, tp, timeout=3000, name="trace_" + os.path.basename(tp).split(".")[0][-9:], heap_gb=4)
+        return ck.validate_events(*TRACE, tp, timeout=3000, name="trace_" + os.path.basename(tp).split(".")[0][-9:],
+                                  heap_gb=2 if ck.thorough else 1)     # measured: 0.6 GB resident for a 10 MB trace
     found = []
     for tp, (res, rejected) in zip(traces, vlib.parallel(val, traces, n=vlib.NCPU)):
         notes = {}
@@ -127,7 +128,7 @@ def canaries(ck, traces):
     p = os.path.join(ck.work, "canary.ndjson")
     vlib.write_ndjson(p, [c0, c1, c2, c3, c4, c5, c6, {"k": "End"}])
     st = (ck.states, ck.transitions, ck.traces_ok, ck.evaluations)
-    res, rej = ck.validate_events(*TRACE, p, name="canary")
+    res, rej = ck.validate_events(*TRACE, p, name="canary", heap_gb=1)
     ck.states, ck.transitions, ck.traces_ok, ck.evaluations = st
     notes = {t[1]: t[3] for t in res.tuples("NOTE")}
     lines = [r["line"] for r in rej]
@@ -142,7 +143,7 @@ def generate(ck):
     jobs = [("MerkleProof_Gen", "gen/MerkleProof_Gen_quick.cfg" if q else "gen/MerkleProof_Gen_full.cfg", "gen_walk"),
             ("MerkleProof_Gen", "gen/MerkleProof_Gen_free_quick.cfg" if q else "gen/MerkleProof_Gen_free_full.cfg", "gen_walk_free"),
             ("MerkleProof_GenD", "gen/MerkleProof_GenD_quick.cfg" if q else "gen/MerkleProof_GenD_full.cfg", "gen_dict")]
-    rs = vlib.parallel(lambda j: ck.tlc_or_infra(j[0], j[1], workers=4, timeout=1500, name=j[2], heap_gb=6), jobs, n=3)
+    rs = vlib.parallel(lambda j: ck.tlc_or_infra(j[0], j[1], workers=4, timeout=1500, name=j[2], heap_gb=2), jobs, n=3)
     walks, free, dicts = rs[0].vecs(), rs[1].vecs(), rs[2].vecs()
     if len(walks) < 1000 or len(free) < 100 or len(dicts) < 1000:
         raise Infra("generators produced too few vectors (%d, %d, %d)" % (len(walks), len(free), len(dicts)))
@@ -238,7 +239,7 @@ def replay(ck, path):
     vp, tp = os.path.join(ck.work, "v.ndjson"), os.path.join(ck.work, "t.ndjson")
     vlib.write_ndjson(vp, [rp["vector"]])
     ck.run_vh(["replay", "C18", "-in", vp, "-out", tp])
-    res, rej = ck.validate_events(*TRACE, tp, name="replay")
+    res, rej = ck.validate_events(*TRACE, tp, name="replay", heap_gb=1)
     for e in vlib.read_ndjson(tp):
         if e.get("k") == "Dict":
             for q in e["q"]:
